@@ -3,6 +3,7 @@ CONSTANTS
   Endpoints = {"full", "mosnconfig", "allrouters", "allclusters", "alllisteners", "router", "cluster", "listener"}
   MaxOps = 2
   KeyForms = {"pem"}
+  KeySpells = {"exact"}
   ArrayLen = 3
   Defects = {"UnwalkedExtends"}
 SPECIFICATION Spec
